@@ -30,7 +30,7 @@ func c01NT(rec *CallRecord, g *Gen) (string, bool) {
 }
 
 func TestC01(t *testing.T) {
-	runHistories(t, historyCfg{prop: "C01", weights: c01Weights, minSteps: 10, maxSteps: 60, nontrivial: c01NT})
+	runHistories(t, historyCfg{prop: "C01", weights: c01Weights, minSteps: 10, maxSteps: 60, templates: awayRefundTemplates, templateP: 12, nontrivial: c01NT})
 }
 
 func init() { replayers["C01"] = replayHistory([]string{"C01"}, nil) }
